@@ -80,6 +80,7 @@ struct Knobs {
     int authenticator_pct = 0;   // the client uses enhanced authentication (broker runs 0-1 challenge rounds)
     int invalid_pub_pct = 0;     // publishes that fail validation (must be refused at once and leave no trace in quota / ids)
     int rm_change_pct = 0;       // the broker announces a different Receive Maximum (or none) on later connections
+    int own_limit_pct = 0;       // the client announces a Maximum Packet Size; the broker sends messages exactly at / just below it
 };
 
 ref::Props pub_props(vu::Rng& rng, bool rich) {
@@ -174,6 +175,16 @@ Scenario gen_mix(vu::Rng& rng, const Knobs& k, const std::string& family) {
         if (rng.chance(1, 3)) { ref::Gen g(rng); g.max_str = 30; b.props = g.props(ref::PUBLISH, -1, {0x23}); }
         sc.script.push_back(b);
     }
+    if ((int)rng.below(100) < k.own_limit_pct) {
+        uint32_t lim = (uint32_t)rng.pick(std::vector<int>{70, 127, 128, 129, 130, 200, 300, 1000, 16383, 16384, 16390});
+        sc.ccfg.connect_props[boost::mqtt5::prop::maximum_packet_size] = lim;
+        int nb = (int)rng.range(1, 3);
+        for (int i = 0; i < nb; ++i) {
+            Action b; b.kind = Action::broker_publish; b.at = (vt)rng.range(0, k.span); b.qos = (int)rng.below(3); b.topic = "lim" + std::to_string(i);
+            b.payload = "edge"; b.fit_delta = (int)rng.pick(std::vector<int>{0, 0, 1, 2, 3, 5});
+            sc.script.push_back(b);
+        }
+    }
     // faults: byte offsets are drawn against a rough estimate of the traffic; misses simply do not fire
     int nf = (int)rng.below(k.faults_max + 1);
     for (int i = 0; i < nf; ++i) {
@@ -258,7 +269,7 @@ Knobs knobs_for(const std::string& family) {
     if (family == "c01-mix") { k.inbound = 3; k.qos_w[0] = 0; k.qos_w[1] = 1; k.qos_w[2] = 1; k.authenticator_pct = 10; }
     else if (family == "c02-mix") { k.faults_max = 3; k.bad_attempts_max = 3; k.authenticator_pct = 10; }
     else if (family == "c03-mix") { k.qos_w[0] = 1; k.qos_w[1] = 1; k.qos_w[2] = 4; k.faults_max = 3; k.rm_choices = {0, 1, 2, 3}; }
-    else if (family == "c04-mix") { k.pubs_max = 4; k.inbound = 8; k.faults_max = 3; k.lose_session_pct = 25; k.subs = 1; }
+    else if (family == "c04-mix") { k.pubs_max = 4; k.inbound = 8; k.faults_max = 3; k.lose_session_pct = 25; k.subs = 1; k.own_limit_pct = 20; }
     else if (family == "c05-mix") { k.suffix = 15 * SEC; }
     else if (family == "c06-rm-change") { k.pubs_min = 3; k.pubs_max = 30; k.burst_pct = 80; k.faults_max = 3; k.qos_w[0] = 3; k.big_payload_pct = 0; k.inbound = 0; k.subs = 0; k.rm_change_pct = 100; k.ack_delay_max = 100 * MS; }
     else if (family == "c06-mix") { k.pubs_min = 2; k.pubs_max = 60; k.burst_pct = 70; k.faults_max = 3; k.qos_w[0] = 2; k.big_payload_pct = 2; k.inbound = 0; k.subs = 0; }
